@@ -644,7 +644,7 @@ def run_multi_fifo(ctx, pool, base, groups):
             a = sorted(effective_submits(read_log(ref)), key=lambda x: (x["streams"][0][1], x["ens"], x["pn"]))
             b = sorted(effective_submits(read_log(d)), key=lambda x: (x["streams"][0][1], x["ens"], x["pn"]))
             ka, kb = [job_key(x) for x in a], [job_key(x) for x in b]
-            diff = compare_dirs(ref, d, same_path_set=not fam["delete_old"])
+            diff = compare_dirs(ref, d, same_path_set=not fam["delete_old"], exact_orderp=(fam["engine"] == "lattice"))
             if ka != kb:
                 i = next((i for i, (x, y) in enumerate(zip(ka, kb)) if x != y), min(len(ka), len(kb)))
                 extra = [(x["ens"], x["pn"]) for x in b[len(a):]]
